@@ -26,6 +26,7 @@ use crate::util::*;
 
 fn duration(c: &str) -> Duration {
     match c {
+        "0s" => Duration::from_secs(0),
         "1ms" => Duration::from_millis(1),
         "1500ms" => Duration::from_millis(1500),
         "90s" => Duration::from_secs(90),
@@ -73,6 +74,9 @@ fn build(v: &Value) -> TestCaseConfig {
         "dur" => Some(TestCaseWait { timeout: Duration::from_secs(2), path: None }),
         "dur_path" => Some(TestCaseWait { timeout: Duration::from_millis(2500), path: Some(PathBuf::from("run/ready.sock")) }),
         "dur_path_space" => Some(TestCaseWait { timeout: Duration::from_secs(2), path: Some(PathBuf::from("my dir/ready file")) }),
+        "dur_path_edge_blank" => Some(TestCaseWait { timeout: Duration::from_secs(2), path: Some(PathBuf::from(" ready ")) }),
+        "dur_path_blank" => Some(TestCaseWait { timeout: Duration::from_secs(2), path: Some(PathBuf::from(" ")) }),
+        "dur_zero" => Some(TestCaseWait { timeout: Duration::from_secs(0), path: Some(PathBuf::from("ready")) }),
         "dur_path_special" => Some(TestCaseWait { timeout: Duration::from_secs(2), path: Some(PathBuf::from("a\", b}#c")) }),
         _ => None,
     };
